@@ -12,7 +12,10 @@ import (
 
 func lazyPrograms() (ids []string, progs [][]node) {
 	routes := []string{"direct", "alias", "param", "computed", "apply", "applylist", "map", "rec", "after-return", "lazy-error-unforced", "strict-error",
-		"nested-caller", "nested-caller-returned", "apply-data", "map-data", "rec-reloaded", "direct-reloaded"}
+		"nested-caller", "nested-caller-returned", "apply-data", "map-data", "rec-reloaded", "direct-reloaded",
+		// the name of the running function denotes ANOTHER function (lazy positions complemented) where it is called in
+		// tail position: which arguments are wrapped must follow the function that receives the call
+		"tail-let", "tail-param", "dead-defn", "old-closure"}
 	patterns := []string{"none", "once", "twice", "substitute", "reverse"}
 	for n := 1; n <= 3; n++ {
 		for mask := 0; mask < 1<<n; mask++ {
@@ -26,8 +29,12 @@ func lazyPrograms() (ids []string, progs [][]node) {
 							continue
 						}
 						id := fmt.Sprintf("lz-n%d-m%d-v%d-%s-%s", n, mask, variadic, route, pat)
+						prog := lazyProgram(n, mask, variadic == 1, route, pat)
+						if prog == nil {
+							continue
+						}
 						ids = append(ids, id)
-						progs = append(progs, lazyProgram(n, mask, variadic == 1, route, pat))
+						progs = append(progs, prog)
 					}
 				}
 			}
@@ -51,9 +58,10 @@ func lazyProgram(n, mask int, variadic bool, route, pat string) []node {
 		rest = "more"
 	}
 	// body: (tr 90 0) then one observation per parameter
-	use := func(i int) node {
+	var bodyFor func(ps []param) []node
+	use := func(ps []param, i int) node {
 		p := nSym(ps[i].name)
-		if !lazy(i) {
+		if !ps[i].lazy {
 			return nApp("tr", nInt(60+i), p)
 		}
 		switch pat {
@@ -68,20 +76,23 @@ func lazyProgram(n, mask int, variadic bool, route, pat string) []node {
 		}
 		return nInt(0)
 	}
-	var uses []node
-	if pat == "reverse" {
-		for i := n - 1; i >= 0; i-- {
-			uses = append(uses, use(i))
+	bodyFor = func(ps []param) []node {
+		var uses []node
+		if pat == "reverse" {
+			for i := n - 1; i >= 0; i-- {
+				uses = append(uses, use(ps, i))
+			}
+		} else {
+			for i := 0; i < n; i++ {
+				uses = append(uses, use(ps, i))
+			}
 		}
-	} else {
-		for i := 0; i < n; i++ {
-			uses = append(uses, use(i))
+		if variadic {
+			uses = append(uses, nSym("more"))
 		}
+		return []node{nApp("tr", nInt(90), nInt(0)), nApp("list", uses...)}
 	}
-	if variadic {
-		uses = append(uses, nSym("more"))
-	}
-	body := []node{nApp("tr", nInt(90), nInt(0)), nApp("list", uses...)}
+	body := bodyFor(ps)
 	// argument expressions with side effects
 	arg := func(i int) node { return nApp("tr", nInt(i+1), nApp("+", nInt(10), nInt(i))) }
 	var args []node
@@ -118,6 +129,39 @@ func lazyProgram(n, mask int, variadic bool, route, pat string) []node {
 		fbody := nCond([]clause{{nApp("<=", nSym("cnt"), nInt(0)), nBegin(body...)}}, nCall(nSym("F"), rargs...))
 		first := append([]node{nInt(1)}, args...)
 		return []node{nDefn("F", ops2, rest, nInt(0)), nDefn("F", ps2, rest, fbody), nCall(nSym("F"), first...)}
+	}
+	cnt := param{"cnt", false}
+	switch route {
+	case "tail-let":
+		// (defn F [ps] (let [F (fn [complement] BODY)] (F args)))
+		inner := nFn(ops, rest, bodyFor(ops)...)
+		return []node{nDefn("F", ps, rest, nLet("let", []bind{{"F", inner}}, nCall(nSym("F"), args...))), nCall(nSym("F"), args...)}
+	case "tail-param":
+		// (defn F [ps F] (F args 0)): the callee arrives in a parameter named like the function; same number of arguments
+		if variadic {
+			return nil
+		}
+		psF := append(append([]param{}, ps...), param{"F", false})
+		opsZ := append(append([]param{}, ops...), param{"z", false})
+		inner := nFn(opsZ, "", bodyFor(opsZ)...)
+		return []node{nDefn("F", psF, "", nCall(nSym("F"), append(append([]node{}, args...), nInt(0))...)),
+			nCall(nSym("F"), append(append([]node{}, args...), inner)...)}
+	case "dead-defn":
+		// an inner defn of the same name, lazy positions complemented, in a branch that is never taken
+		ps2 := append([]param{cnt}, ps...)
+		ops2 := append([]param{cnt}, ops...)
+		rargs := append([]node{nApp("-", nSym("cnt"), nInt(1))}, args...)
+		fbody := nCond([]clause{{nApp("<=", nSym("cnt"), nInt(0)), nBegin(body...)}, {nApp("<", nSym("cnt"), nInt(5)), nCall(nSym("F"), rargs...)}},
+			nBegin(nDefn("F", ops2, rest, nInt(0)), nInt(0)))
+		return []node{nDefn("F", ps2, rest, fbody), nCall(nSym("F"), append([]node{nInt(1)}, args...)...)}
+	case "old-closure":
+		// a closure of the old definition kept under another name: its tail call reaches the NEW function
+		ps2 := append([]param{cnt}, ps...)
+		ops2 := append([]param{cnt}, ops...)
+		rargs := append([]node{nApp("-", nSym("cnt"), nInt(1))}, args...)
+		oldBody := nCond([]clause{{nApp("<=", nSym("cnt"), nInt(0)), nInt(0)}}, nCall(nSym("F"), rargs...))
+		return []node{nDefn("F", ps2, rest, oldBody), nDef("old", nSym("F")), nDefn("F", ops2, rest, bodyFor(ops)...),
+			nCall(nSym("old"), append([]node{nInt(1)}, args...)...)}
 	}
 	switch route {
 	case "direct", "lazy-error-unforced", "strict-error":
@@ -219,6 +263,14 @@ func init() {
 				if strings.Contains(ids[i], "-reloaded-") {
 					// the earlier definition was left by an earlier evaluation
 					text = renderSplit(progs[i], 1)
+				}
+				if strings.Contains(ids[i], "-old-closure-") {
+					// every form in an evaluation of its own
+					var parts []string
+					for _, f := range progs[i] {
+						parts = append(parts, renderProgram([]node{f}, nil))
+					}
+					text = strings.Join(parts, splitMark)
 				}
 				w.write(runSem(ids[i], "lazy", progs[i], text))
 			}
